@@ -274,6 +274,9 @@ class Puppet:
                         tr = tr + [t for t in offered.transforms if t.type == M.Transform.Type.ENCR][-1:]
                     v = 'bad-sa-' + bv
                 spi_len = 8 if is_ike else 4
+                if v == 'honest' and r.random() < 0.12:
+                    spi_len = r.choice([0, 1, 3, 5, 8, 16] if not is_ike else [0, 4, 7, 9])      # an SPI of the wrong size in an otherwise valid answer
+                    v = 'spi-len-%d' % spi_len
                 payloads.append(M.PayloadSA([M.Proposal(offered.num, offered.protocol_id, bytes(r.getrandbits(8) for _ in range(spi_len)), tr)]))
                 payloads.append(M.PayloadNONCE())
                 dh = next((t.id for t in tr if t.type == M.Transform.Type.DH), None)
@@ -418,9 +421,11 @@ def campaign(ctx, res, n_hist, n_msgs, oracles=None, deep=True):
                     for b in list(w.B.controller.ike_sas):
                         w.B.controller.ike_sas.remove(b)
                     w.B.kernel.sad.clear()
+                    if h.findings:
+                        break                      # something is already wrong: do not paper over it with a fresh session
                     for a in list(w.A.controller.ike_sas):
-                        a.delete_child_sas()
                         w.A.controller.ike_sas.remove(a)
+                    w.A.kernel.sad.clear()
                     if not h.establish('A' if rng.random() < 0.5 else 'B'):
                         break
                     continue
@@ -452,6 +457,9 @@ def campaign(ctx, res, n_hist, n_msgs, oracles=None, deep=True):
                     continue
                 h.op('inject', 'A', bytes(data), w.ip_b)
                 res.evaluations += 1
+                if rng.random() < 0.3:
+                    w.net.clear()
+                    h.op('tick', 0.25)
             for kk, n in pup.kinds.items():
                 res.count('rogue:' + kk.split(' ')[0], n)
                 res.nontrivial.add(('rogue', kk))
